@@ -91,6 +91,7 @@ pub fn crashrun(plan_path: &str, out_path: &str) -> anyhow::Result<i32> {
         };
         if let Out::Ok { vid, .. } = &out {
             r.ledger.acc[ci].push((*vid, a));
+            r.ledger.toks[ci].push(tok);
         }
         let before = r.namer.universe().len();
         let resp = crate::seq::out_to_resp(&out, &mut r.namer, &r.pay);
@@ -183,6 +184,7 @@ pub fn recover(plan_path: &str, out_path: &str) -> anyhow::Result<i32> {
                     let v = r.namer.uuid(e["resp"]["vid"].as_i64().unwrap_or(0));
                     let a = r.namer.uuid(e["req"]["arg"].as_i64().unwrap_or(0));
                     r.ledger.acc[ci].push((v, a));
+                    r.ledger.toks[ci].push(e["req"]["tok"].as_i64().unwrap_or(0));
                 }
             }
         }
